@@ -17,8 +17,8 @@
 use serde_json::{Value, json};
 use std::cell::Cell;
 use std::sync::Arc;
-use surf_n_term::surface::{Surface, SurfaceMut, SurfaceMutView, SurfaceOwned, SurfaceView, ViewBounds};
-use surf_n_term::{Position, Size};
+use surf_n_term::surface::{Surface, SurfaceMut, SurfaceMutView, SurfaceOwned, SurfaceOwnedView, SurfaceView, ViewBounds};
+use surf_n_term::{Color, Image, Position, RGBA, Size};
 use verif_harness::{Cfg, r#gen::Rng, guarded, out::Out};
 
 /// value of a cell as seen by the oracle and the model
@@ -31,6 +31,45 @@ trait Elem: Clone + Default + 'static {
     /// constructions minus drops so far (only the counting type tracks it)
     fn live() -> i64 {
         0
+    }
+    /// identify cells by value, not by address (see `Addr::by_value`)
+    const BY_VALUE: bool = false;
+    /// carry out one step of a chain through another `Surface` implementor of the crate, if there is one
+    /// for this element type (`Image` for RGBA cells)
+    fn image_step<'a>(s: DynRef<'a, Self>, _op: &Op, _variant: u8) -> Result<DynRef<'a, Self>, DynRef<'a, Self>> {
+        Err(s)
+    }
+}
+/// RGBA cells: `Image` (src/image.rs) is a `Surface` implementor over them — `Image::new(view)`,
+/// `Image::from_parts`, `Image::crop` must denote the same windows as the views they are made from
+impl Elem for RGBA {
+    fn mk(id: T) -> Self {
+        let b = id.to_le_bytes();
+        RGBA::new(b[0], b[1], b[2], b[3])
+    }
+    fn id(&self) -> T {
+        T::from_le_bytes(self.to_rgba())
+    }
+    const BY_VALUE: bool = true;
+    fn image_step<'a>(s: DynRef<'a, Self>, op: &Op, variant: u8) -> Result<DynRef<'a, Self>, DynRef<'a, Self>> {
+        Ok(match (*op, variant % 5) {
+            (Op::View(r, c), 0) => Box::new(Image::new(s).crop(r, c)),
+            (Op::View(r, c), 1) => Box::new(Image::new(s.view_owned(r, c))),
+            (Op::View(r, c), 2) => Box::new(Image::new(s).view_owned(r, c)),
+            (Op::View(r, c), 3) => {
+                let img = Image::new(s.view_owned(r, c));
+                Box::new(Image::from_parts(Arc::from(img.data()), img.shape()))
+            }
+            (Op::View(r, c), _) => Box::new(Image::new(Image::new(s).view(r, c))),
+            (Op::Transpose, 0) => Box::new(Image::new(s.transpose())),
+            (Op::Transpose, 1) => Box::new(Image::new(s).transpose()),
+            (Op::Transpose, 2) => Box::new(Image::new(Image::new(s).transpose())),
+            (Op::Transpose, 3) => {
+                let img = Image::new(s.transpose());
+                Box::new(Image::from_parts(Arc::from(img.data()), img.shape()).crop(.., ..))
+            }
+            (Op::Transpose, _) => Box::new(Arc::new(Image::new(s)).transpose()),
+        })
     }
 }
 impl Elem for u32 {
@@ -90,7 +129,7 @@ impl Elem for Counted {
         LIVE.with(|l| l.get())
     }
 }
-const ELEMS: [&str; 4] = ["u32", "odd5", "counted", "zst"];
+const ELEMS: [&str; 5] = ["u32", "odd5", "counted", "zst", "rgba"];
 
 const TYPES: [&str; 10] = ["i8", "u8", "i16", "u16", "i32", "u32", "i64", "u64", "isize", "usize"];
 
@@ -345,10 +384,107 @@ const MUT_T_KINDS: u8 = 3;
 const REF_VIEW_KINDS: u8 = 6;
 const REF_T_KINDS: u8 = 4;
 
+/// kinds from `CONCRETE` on: the result of the step is NOT type-erased, the following steps are method calls on
+/// the concrete type (`SurfaceOwnedView<_>`, `SurfaceMutView`, `SurfaceView`) exactly as a user writes them —
+/// an inherent method shadowing a trait default is what gets called then
+const CONCRETE: u8 = 24;
+
+macro_rules! conc_ov_mut {
+    ($name:ident, $next:ident) => {
+        fn $name<'a, E: Elem, S: SurfaceMut<Item = E> + 'a>(
+            mut s: SurfaceOwnedView<S>,
+            steps: &[Step],
+            k: &mut dyn for<'b> FnMut(DynMut<'b, E>),
+        ) {
+            let Some((step, rest)) = steps.split_first() else {
+                return k(Box::new(s));
+            };
+            if step.kind < CONCRETE - 8 {
+                return chain_mut(Box::new(s), steps, k);
+            }
+            match step.op {
+                Op::View(r, c) => match step.kind % 4 {
+                    0 | 1 => $next(s.view_owned(r, c), rest, k),
+                    2 => conc_mv(s.view_mut(r, c), rest, k),
+                    _ => $next((&mut s).view_owned(r, c), rest, k),
+                },
+                Op::Transpose => match step.kind % 2 {
+                    0 => $next(s.transpose(), rest, k),
+                    _ => $next((&mut s).transpose(), rest, k),
+                },
+            }
+        }
+    };
+}
+conc_ov_mut!(conc_ov4, conc_ov3);
+conc_ov_mut!(conc_ov3, conc_ov2);
+conc_ov_mut!(conc_ov2, conc_ov1);
+fn conc_ov1<'a, E: Elem, S: SurfaceMut<Item = E> + 'a>(s: SurfaceOwnedView<S>, steps: &[Step], k: &mut dyn for<'b> FnMut(DynMut<'b, E>)) {
+    chain_mut(Box::new(s), steps, k)
+}
+
+fn conc_mv<'a, E: Elem>(mut s: SurfaceMutView<'a, E>, steps: &[Step], k: &mut dyn for<'b> FnMut(DynMut<'b, E>)) {
+    let Some((step, rest)) = steps.split_first() else {
+        return k(Box::new(s));
+    };
+    if step.kind < CONCRETE - 8 {
+        return chain_mut(Box::new(s), steps, k);
+    }
+    match step.op {
+        Op::View(r, c) => match step.kind % 3 {
+            0 => conc_mv(s.view_mut(r, c), rest, k),
+            1 => conc_ov2(s.view_owned(r, c), rest, k),
+            _ => {
+                let (shape, data) = s.parts();
+                conc_mv(SurfaceMutView::new(shape.view(r, c), data), rest, k)
+            }
+        },
+        Op::Transpose => conc_ov2(s.transpose(), rest, k),
+    }
+}
+
+/// the first step on the concrete root (`SurfaceOwned<E>` by value)
+fn start_mut_owned<E: Elem>(mut root: SurfaceOwned<E>, steps: &[Step], k: &mut dyn for<'b> FnMut(DynMut<'b, E>)) {
+    match steps.split_first() {
+        Some((step, rest)) if step.kind >= CONCRETE => match step.op {
+            Op::View(r, c) => match step.kind % 2 {
+                0 => conc_ov4(root.view_owned(r, c), rest, k),
+                _ => conc_mv(root.view_mut(r, c), rest, k),
+            },
+            Op::Transpose => conc_ov4(root.transpose(), rest, k),
+        },
+        _ => chain_mut(Box::new(root), steps, k),
+    }
+}
+
+/// the first step on `&mut SurfaceOwned<E>`
+fn start_mut_borrowed<E: Elem>(root: &mut SurfaceOwned<E>, steps: &[Step], k: &mut dyn for<'b> FnMut(DynMut<'b, E>)) {
+    match steps.split_first() {
+        Some((step, rest)) if step.kind >= CONCRETE => match step.op {
+            Op::View(r, c) => match step.kind % 3 {
+                0 => conc_ov4(root.view_owned(r, c), rest, k),
+                1 => conc_mv(root.view_mut(r, c), rest, k),
+                _ => conc_mv(root.as_mut().view_mut(r, c), rest, k),
+            },
+            Op::Transpose => conc_ov4(root.transpose(), rest, k),
+        },
+        _ => chain_mut(Box::new(root), steps, k),
+    }
+}
+
 fn chain_mut<'a, E: Elem>(mut s: DynMut<'a, E>, steps: &[Step], k: &mut dyn for<'b> FnMut(DynMut<'b, E>)) {
     let Some((step, rest)) = steps.split_first() else {
         return k(s);
     };
+    if step.kind >= CONCRETE + 12 {
+        return match step.op {
+            Op::View(r, c) => match step.kind % 2 {
+                0 => conc_ov3(s.view_owned(r, c), rest, k),
+                _ => conc_mv(s.view_mut(r, c), rest, k),
+            },
+            Op::Transpose => conc_ov3(s.transpose(), rest, k),
+        };
+    }
     match step.op {
         Op::View(r, c) => match step.kind % MUT_VIEW_KINDS {
             0 => chain_mut(Box::new(s.view_owned(r, c)), rest, k),
@@ -376,10 +512,109 @@ fn chain_mut<'a, E: Elem>(mut s: DynMut<'a, E>, steps: &[Step], k: &mut dyn for<
     }
 }
 
+macro_rules! conc_ov_ref {
+    ($name:ident, $next:ident) => {
+        fn $name<'a, E: Elem, S: Surface<Item = E> + 'a>(
+            s: SurfaceOwnedView<S>,
+            steps: &[Step],
+            k: &mut dyn for<'b> FnMut(DynRef<'b, E>),
+        ) {
+            let Some((step, rest)) = steps.split_first() else {
+                return k(Box::new(s));
+            };
+            if step.kind < CONCRETE - 8 {
+                return chain_ref(Box::new(s), steps, k);
+            }
+            match step.op {
+                Op::View(r, c) => match step.kind % 4 {
+                    0 | 1 => $next(s.view_owned(r, c), rest, k),
+                    2 => conc_rv(s.view(r, c), rest, k),
+                    _ => $next((&s).view_owned(r, c), rest, k),
+                },
+                Op::Transpose => match step.kind % 2 {
+                    0 => $next(s.transpose(), rest, k),
+                    _ => $next((&s).transpose(), rest, k),
+                },
+            }
+        }
+    };
+}
+conc_ov_ref!(rconc_ov4, rconc_ov3);
+conc_ov_ref!(rconc_ov3, rconc_ov2);
+conc_ov_ref!(rconc_ov2, rconc_ov1);
+fn rconc_ov1<'a, E: Elem, S: Surface<Item = E> + 'a>(s: SurfaceOwnedView<S>, steps: &[Step], k: &mut dyn for<'b> FnMut(DynRef<'b, E>)) {
+    chain_ref(Box::new(s), steps, k)
+}
+
+fn conc_rv<'a, E: Elem>(s: SurfaceView<'a, E>, steps: &[Step], k: &mut dyn for<'b> FnMut(DynRef<'b, E>)) {
+    let Some((step, rest)) = steps.split_first() else {
+        return k(Box::new(s));
+    };
+    if step.kind < CONCRETE - 8 {
+        return chain_ref(Box::new(s), steps, k);
+    }
+    match step.op {
+        Op::View(r, c) => match step.kind % 3 {
+            0 => conc_rv(s.view(r, c), rest, k),
+            1 => rconc_ov2(s.view_owned(r, c), rest, k),
+            _ => {
+                let (shape, data) = s.parts();
+                conc_rv(SurfaceView::new(shape.view(r, c), data), rest, k)
+            }
+        },
+        Op::Transpose => rconc_ov2(s.transpose(), rest, k),
+    }
+}
+
+fn start_ref_owned<E: Elem>(root: SurfaceOwned<E>, steps: &[Step], k: &mut dyn for<'b> FnMut(DynRef<'b, E>)) {
+    match steps.split_first() {
+        Some((step, rest)) if step.kind >= CONCRETE && step.kind < 40 => match step.op {
+            Op::View(r, c) => match step.kind % 2 {
+                0 => rconc_ov4(root.view_owned(r, c), rest, k),
+                _ => conc_rv(root.view(r, c), rest, k),
+            },
+            Op::Transpose => rconc_ov4(root.transpose(), rest, k),
+        },
+        _ => chain_ref(Box::new(root), steps, k),
+    }
+}
+
+fn start_ref_borrowed<E: Elem>(root: &SurfaceOwned<E>, steps: &[Step], k: &mut dyn for<'b> FnMut(DynRef<'b, E>)) {
+    match steps.split_first() {
+        Some((step, rest)) if step.kind >= CONCRETE && step.kind < 40 => match step.op {
+            Op::View(r, c) => match step.kind % 3 {
+                0 => rconc_ov4(root.view_owned(r, c), rest, k),
+                1 => conc_rv(root.view(r, c), rest, k),
+                _ => conc_rv(root.as_ref().view(r, c), rest, k),
+            },
+            Op::Transpose => rconc_ov4(root.transpose(), rest, k),
+        },
+        _ => chain_ref(Box::new(root), steps, k),
+    }
+}
+
 fn chain_ref<'a, E: Elem>(s: DynRef<'a, E>, steps: &[Step], k: &mut dyn for<'b> FnMut(DynRef<'b, E>)) {
     let Some((step, rest)) = steps.split_first() else {
         return k(s);
     };
+    // another Surface implementor of the crate as carrier (Image, RGBA cells only)
+    let s = if step.kind >= 40 {
+        match E::image_step(s, &step.op, step.kind) {
+            Ok(next) => return chain_ref(next, rest, k),
+            Err(s) => s,
+        }
+    } else {
+        s
+    };
+    if step.kind >= CONCRETE + 12 {
+        return match step.op {
+            Op::View(r, c) => match step.kind % 2 {
+                0 => rconc_ov3(s.view_owned(r, c), rest, k),
+                _ => conc_rv(s.view(r, c), rest, k),
+            },
+            Op::Transpose => rconc_ov3(s.transpose(), rest, k),
+        };
+    }
     match step.op {
         Op::View(r, c) => match step.kind % REF_VIEW_KINDS {
             0 => chain_ref(Box::new(s.view_owned(r, c)), rest, k),
@@ -410,6 +645,11 @@ fn new_root<E: Elem>(h: usize, w: usize, extra: usize) -> SurfaceOwned<E> {
     }
 }
 
+/// value written through `iter_mut().with_position()`: it records the position the iterator reported
+fn pv(r: usize, c: usize) -> T {
+    7000 + (r as T) * 100 + c as T
+}
+
 fn tf(r: usize, c: usize, x: T) -> T {
     1000u32.wrapping_add(x.wrapping_mul(100)).wrapping_add((r as T) * 10).wrapping_add(c as T)
 }
@@ -428,6 +668,8 @@ struct Obs {
     items: Vec<Option<(usize, T)>>,
     /// positions reported by `with_position`
     positions: Vec<(usize, usize)>,
+    /// (row, col, offset, value) pairs handed out by a position iterator under nth / skip / step_by
+    pitems: Vec<Option<(usize, usize, usize, T)>>,
     /// closure calls of fill_with / map: (row, col, offset)
     calls: Vec<(usize, usize, usize)>,
     /// result data of map / to_owned_surf with its size; old value returned by set
@@ -435,6 +677,9 @@ struct Obs {
     mapped_size: (usize, usize),
     /// whole backing slice after the operation
     canvas: Vec<T>,
+    /// the carrier may own a copy of the cells (Image): its data() is not the parent, a read cannot have
+    /// changed the parent, the canvas is not compared
+    canvas_skip: bool,
     /// a reference that does not point into the backing slice at an element boundary, a view whose data()
     /// is not the parent's slice, or an unbalanced construction/drop count
     bad: Option<String>,
@@ -444,12 +689,18 @@ struct Addr {
     base: usize,
     len: usize,
     sz: usize,
+    /// cells are identified by the value they carry (`data[i] = i + 1`) instead of by their address: used
+    /// where a carrier may legitimately copy the cells into a buffer of its own (`Image::new`)
+    by_value: bool,
 }
 impl Addr {
     fn of<E>(data: &[E]) -> Self {
-        Addr { base: data.as_ptr() as usize, len: data.len(), sz: std::mem::size_of::<E>() }
+        Addr { base: data.as_ptr() as usize, len: data.len(), sz: std::mem::size_of::<E>(), by_value: false }
     }
-    fn off<E>(&self, p: *const E, obs: &mut Obs) -> usize {
+    fn off<E>(&self, p: *const E, val: T, obs: &mut Obs) -> usize {
+        if self.by_value {
+            return (val as usize).wrapping_sub(1);
+        }
         let p = p as usize;
         if p < self.base || (p - self.base) % self.sz != 0 || (p - self.base) / self.sz >= self.len {
             obs.bad = Some(format!("address {p:#x} is not an element of the backing slice at {:#x} (len {})", self.base, self.len));
@@ -465,13 +716,13 @@ fn ids<E: Elem>(data: &[E]) -> Vec<T> {
 
 fn observe_ref<E: Elem>(s: DynRef<'_, E>, case: &Case) -> Obs {
     let mut obs = Obs { height: s.height(), width: s.width(), is_empty: s.is_empty(), ..Obs::default() };
-    let addr = Addr::of(s.data());
+    let addr = Addr { by_value: E::BY_VALUE, ..Addr::of(s.data()) };
     match case.acc.as_str() {
         "grid" => {
             for r in 0..obs.height + 2 {
                 for c in 0..obs.width + 2 {
                     let g = s.get(Position::new(r, c)).map(|x| (x as *const E, x.id()));
-                    let g = g.map(|(p, v)| (addr.off(p, &mut obs), v));
+                    let g = g.map(|(p, v)| (addr.off(p, v, &mut obs), v));
                     obs.grid.push(g);
                 }
             }
@@ -479,33 +730,56 @@ fn observe_ref<E: Elem>(s: DynRef<'_, E>, case: &Case) -> Obs {
         "probe" => {
             for rc in case.args.chunks(2) {
                 let g = s.get(Position::new(rc[0], rc[1])).map(|x| (x as *const E, x.id()));
-                let g = g.map(|(p, v)| (addr.off(p, &mut obs), v));
+                let g = g.map(|(p, v)| (addr.off(p, v, &mut obs), v));
                 obs.grid.push(g);
             }
         }
         "iter" => {
             let refs: Vec<&E> = s.iter().collect();
             for x in refs {
-                let o = addr.off(x as *const E, &mut obs);
+                let o = addr.off(x as *const E, x.id(), &mut obs);
                 obs.items.push(Some((o, x.id())));
             }
             obs.positions = s.iter().with_position().map(|(p, _)| (p.row, p.col)).collect();
+        }
+        "posnth" => {
+            let mut it = s.iter().with_position();
+            for &k in &case.args {
+                let g = it.nth(k).map(|(p, x)| (p.row, p.col, x as *const E, x.id()));
+                let g = g.map(|(r, c, p, v)| (r, c, addr.off(p, v, &mut obs), v));
+                obs.pitems.push(g);
+            }
+        }
+        "posadapt" => {
+            // args: mode (1 skip(a), 2 step_by(b), 3 skip(a).step_by(b)), a, b
+            let (a, b) = (case.args[1], case.args[2]);
+            let it = s.iter().with_position();
+            let got: Vec<(Position, &E)> = match case.args[0] {
+                1 => it.skip(a).collect(),
+                2 => it.step_by(b).collect(),
+                _ => it.skip(a).step_by(b).collect(),
+            };
+            for (p, x) in got {
+                let o = addr.off(x as *const E, x.id(), &mut obs);
+                obs.pitems.push(Some((p.row, p.col, o, x.id())));
+            }
+            obs.pitems.push(None);
         }
         "nth" => {
             let mut it = s.iter();
             for &k in &case.args {
                 let g = it.nth(k).map(|x| (x as *const E, x.id()));
-                let g = g.map(|(p, v)| (addr.off(p, &mut obs), v));
+                let g = g.map(|(p, v)| (addr.off(p, v, &mut obs), v));
                 obs.items.push(g);
             }
         }
         "map" => {
             let mut calls = Vec::new();
             let m = s.map(|pos, x| {
-                calls.push((pos.row, pos.col, x as *const E));
+                calls.push((pos.row, pos.col, x as *const E, x.id()));
                 E::mk(tf(pos.row, pos.col, x.id()))
             });
-            obs.calls = calls.into_iter().map(|(r, c, p)| (r, c, addr.off(p, &mut obs))).collect();
+            obs.calls = calls.into_iter().map(|(r, c, p, v)| (r, c, addr.off(p, v, &mut obs))).collect();
             obs.mapped_size = (m.height(), m.width());
             obs.mapped = ids(&m.to_vec());
         }
@@ -522,13 +796,13 @@ fn observe_ref<E: Elem>(s: DynRef<'_, E>, case: &Case) -> Obs {
 
 fn observe_mut<E: Elem>(mut s: DynMut<'_, E>, case: &Case) -> Obs {
     let mut obs = Obs { height: s.height(), width: s.width(), is_empty: s.is_empty(), ..Obs::default() };
-    let addr = Addr::of(s.data());
+    let addr = Addr { by_value: E::BY_VALUE, ..Addr::of(s.data()) };
     match case.acc.as_str() {
         "grid" => {
             for r in 0..obs.height + 2 {
                 for c in 0..obs.width + 2 {
                     let g = s.get(Position::new(r, c)).map(|x| (x as *const E, x.id()));
-                    let g = g.map(|(p, v)| (addr.off(p, &mut obs), v));
+                    let g = g.map(|(p, v)| (addr.off(p, v, &mut obs), v));
                     obs.grid.push(g);
                 }
             }
@@ -536,7 +810,7 @@ fn observe_mut<E: Elem>(mut s: DynMut<'_, E>, case: &Case) -> Obs {
         "probemut" => {
             for rc in case.args.chunks(2) {
                 let g = s.get_mut(Position::new(rc[0], rc[1])).map(|x| (x as *const E, x.id()));
-                let g = g.map(|(p, v)| (addr.off(p, &mut obs), v));
+                let g = g.map(|(p, v)| (addr.off(p, v, &mut obs), v));
                 obs.grid.push(g);
             }
         }
@@ -544,7 +818,7 @@ fn observe_mut<E: Elem>(mut s: DynMut<'_, E>, case: &Case) -> Obs {
             for r in 0..obs.height + 2 {
                 for c in 0..obs.width + 2 {
                     let g = s.get_mut(Position::new(r, c)).map(|x| (x as *const E, x.id()));
-                    let g = g.map(|(p, v)| (addr.off(p, &mut obs), v));
+                    let g = g.map(|(p, v)| (addr.off(p, v, &mut obs), v));
                     obs.grid.push(g);
                 }
             }
@@ -552,14 +826,14 @@ fn observe_mut<E: Elem>(mut s: DynMut<'_, E>, case: &Case) -> Obs {
         "probe" => {
             for rc in case.args.chunks(2) {
                 let g = s.get(Position::new(rc[0], rc[1])).map(|x| (x as *const E, x.id()));
-                let g = g.map(|(p, v)| (addr.off(p, &mut obs), v));
+                let g = g.map(|(p, v)| (addr.off(p, v, &mut obs), v));
                 obs.grid.push(g);
             }
         }
         "iter" => {
             let refs: Vec<&E> = s.iter().collect();
             for x in refs {
-                let o = addr.off(x as *const E, &mut obs);
+                let o = addr.off(x as *const E, x.id(), &mut obs);
                 obs.items.push(Some((o, x.id())));
             }
             obs.positions = s.iter().with_position().map(|(p, _)| (p.row, p.col)).collect();
@@ -570,18 +844,75 @@ fn observe_mut<E: Elem>(mut s: DynMut<'_, E>, case: &Case) -> Obs {
             for (k, x) in refs.into_iter().enumerate() {
                 let v = x.id();
                 *x = E::mk(5000 + k as T);
-                let o = addr.off(x as *const E, &mut obs);
+                let o = addr.off(x as *const E, v, &mut obs);
                 obs.items.push(Some((o, v)));
             }
             obs.positions = s.iter_mut().with_position().map(|(p, _)| (p.row, p.col)).collect();
+        }
+        "posnth" => {
+            let mut it = s.iter().with_position();
+            for &k in &case.args {
+                let g = it.nth(k).map(|(p, x)| (p.row, p.col, x as *const E, x.id()));
+                let g = g.map(|(r, c, p, v)| (r, c, addr.off(p, v, &mut obs), v));
+                obs.pitems.push(g);
+            }
+        }
+        "posadapt" => {
+            // args: mode (1 skip(a), 2 step_by(b), 3 skip(a).step_by(b)), a, b
+            let (a, b) = (case.args[1], case.args[2]);
+            let it = s.iter().with_position();
+            let got: Vec<(Position, &E)> = match case.args[0] {
+                1 => it.skip(a).collect(),
+                2 => it.step_by(b).collect(),
+                _ => it.skip(a).step_by(b).collect(),
+            };
+            for (p, x) in got {
+                let o = addr.off(x as *const E, x.id(), &mut obs);
+                obs.pitems.push(Some((p.row, p.col, o, x.id())));
+            }
+            obs.pitems.push(None);
         }
         "nth" => {
             let mut it = s.iter();
             for &k in &case.args {
                 let g = it.nth(k).map(|x| (x as *const E, x.id()));
-                let g = g.map(|(p, v)| (addr.off(p, &mut obs), v));
+                let g = g.map(|(p, v)| (addr.off(p, v, &mut obs), v));
                 obs.items.push(g);
             }
+        }
+        "posnthmut" => {
+            let mut it = s.iter_mut().with_position();
+            let mut got: Vec<Option<(Position, &mut E)>> = Vec::new();
+            for &k in &case.args {
+                got.push(it.nth(k));
+            }
+            for g in got {
+                match g {
+                    None => obs.pitems.push(None),
+                    Some((p, x)) => {
+                        let v = x.id();
+                        *x = E::mk(pv(p.row, p.col));
+                        let o = addr.off(x as *const E, v, &mut obs);
+                        obs.pitems.push(Some((p.row, p.col, o, v)));
+                    }
+                }
+            }
+        }
+        "posadaptmut" => {
+            let (a, b) = (case.args[1], case.args[2]);
+            let it = s.iter_mut().with_position();
+            let got: Vec<(Position, &mut E)> = match case.args[0] {
+                1 => it.skip(a).collect(),
+                2 => it.step_by(b).collect(),
+                _ => it.skip(a).step_by(b).collect(),
+            };
+            for (p, x) in got {
+                let v = x.id();
+                *x = E::mk(pv(p.row, p.col));
+                let o = addr.off(x as *const E, v, &mut obs);
+                obs.pitems.push(Some((p.row, p.col, o, v)));
+            }
+            obs.pitems.push(None);
         }
         "nthmut" => {
             let mut it = s.iter_mut();
@@ -595,7 +926,7 @@ fn observe_mut<E: Elem>(mut s: DynMut<'_, E>, case: &Case) -> Obs {
                     Some(x) => {
                         let v = x.id();
                         *x = E::mk(6000 + j as T);
-                        let o = addr.off(x as *const E, &mut obs);
+                        let o = addr.off(x as *const E, v, &mut obs);
                         obs.items.push(Some((o, v)));
                     }
                 }
@@ -622,10 +953,10 @@ fn observe_mut<E: Elem>(mut s: DynMut<'_, E>, case: &Case) -> Obs {
         "map" => {
             let mut calls = Vec::new();
             let m = s.map(|pos, x| {
-                calls.push((pos.row, pos.col, x as *const E));
+                calls.push((pos.row, pos.col, x as *const E, x.id()));
                 E::mk(tf(pos.row, pos.col, x.id()))
             });
-            obs.calls = calls.into_iter().map(|(r, c, p)| (r, c, addr.off(p, &mut obs))).collect();
+            obs.calls = calls.into_iter().map(|(r, c, p, v)| (r, c, addr.off(p, v, &mut obs))).collect();
             obs.mapped_size = (m.height(), m.width());
             obs.mapped = ids(&m.to_vec());
         }
@@ -641,7 +972,7 @@ fn observe_mut<E: Elem>(mut s: DynMut<'_, E>, case: &Case) -> Obs {
 }
 
 fn is_mut_acc(acc: &str) -> bool {
-    matches!(acc, "gridmut" | "probemut" | "itermut" | "nthmut" | "fill" | "clear" | "fillwith" | "insert" | "insertwrap" | "inserthuge" | "set")
+    matches!(acc, "gridmut" | "probemut" | "posnthmut" | "posadaptmut" | "itermut" | "nthmut" | "fill" | "clear" | "fillwith" | "insert" | "insertwrap" | "inserthuge" | "set")
 }
 
 /// run one case on the implementation with element type `E`; `Err` = panic whose effect on the parent
@@ -653,9 +984,9 @@ fn run_impl_e<E: Elem>(case: &Case, mutable: bool) -> Result<Obs, ()> {
         let mut res: Option<Obs> = None;
         if mutable {
             if case.root_kind == 0 {
-                chain_mut::<E>(Box::new(root), &case.steps, &mut |s| res = Some(observe_mut(s, case)));
+                start_mut_owned::<E>(root, &case.steps, &mut |s| res = Some(observe_mut(s, case)));
             } else {
-                let r = guarded(|| chain_mut::<E>(Box::new(&mut root), &case.steps, &mut |s| res = Some(observe_mut(s, case))));
+                let r = guarded(|| start_mut_borrowed::<E>(&mut root, &case.steps, &mut |s| res = Some(observe_mut(s, case))));
                 // the parent itself is the authority on what was changed
                 let canvas = ids(root.data());
                 match (r, res.as_mut()) {
@@ -669,11 +1000,13 @@ fn run_impl_e<E: Elem>(case: &Case, mutable: bool) -> Result<Obs, ()> {
                 }
             }
         } else if case.root_kind == 0 {
-            chain_ref::<E>(Box::new(root), &case.steps, &mut |s| res = Some(observe_ref(s, case)));
+            start_ref_owned::<E>(root, &case.steps, &mut |s| res = Some(observe_ref(s, case)));
         } else {
-            chain_ref::<E>(Box::new(&root), &case.steps, &mut |s| res = Some(observe_ref(s, case)));
+            start_ref_borrowed::<E>(&root, &case.steps, &mut |s| res = Some(observe_ref(s, case)));
         }
-        res.expect("continuation was not called")
+        let mut obs = res.expect("continuation was not called");
+        obs.canvas_skip = E::BY_VALUE && !mutable;
+        obs
     });
     let live1 = E::live();
     r.map(|mut obs| {
@@ -688,6 +1021,7 @@ fn run_impl(case: &Case, mutable: bool) -> Result<Obs, ()> {
     match case.elem {
         0 => run_impl_e::<u32>(case, mutable),
         1 => run_impl_e::<Odd5>(case, mutable),
+        4 => run_impl_e::<RGBA>(case, mutable),
         _ => run_impl_e::<Counted>(case, mutable),
     }
 }
@@ -719,11 +1053,15 @@ fn sorted<X: Ord + Clone>(l: &[X]) -> Vec<X> {
 fn request(case: &Case) -> String {
     let op = match case.acc.as_str() {
         "insertwrap" | "inserthuge" => "insert",
+        "posadapt" => "posnth",
+        "posadaptmut" => "posnthmut",
         a => a,
     };
     let head = format!("c07 {op} {} {} {} {}", case.h, case.w, case.extra, case.chain_token());
     match case.acc.as_str() {
-        "nth" | "nthmut" | "probe" | "probemut" => format!("{head} {}", join(&case.args)),
+        "nth" | "nthmut" | "probe" | "probemut" | "posnth" | "posnthmut" => format!("{head} {}", join(&case.args)),
+        // the adaptor as the sequence of `nth` calls std makes: skip(a) = nth(a), next…; step_by(b) = next, nth(b-1)…
+        "posadapt" | "posadaptmut" => format!("{head} {}", join(&case.items)),
         "fill" => format!("{head} {}", case.args[0]),
         "insert" | "insertwrap" | "inserthuge" => format!("{head} {} {} {}", case.args[0], case.args[1], join(&case.items)),
         "set" => format!("{head} {} {} 4242", case.args[0], case.args[1]),
@@ -749,6 +1087,14 @@ fn answer(case: &Case, obs: &Result<Obs, ()>) -> String {
         "gridmut" if obs.height * obs.width == 0 => "empty".to_string(),
         "gridmut" | "probe" | "probemut" => join(&obs.grid.iter().map(show_cell).collect::<Vec<_>>()),
         "iter" | "nth" => join(&obs.items.iter().map(show_cell).collect::<Vec<_>>()),
+        "posnth" | "posadapt" => join(&obs.pitems.iter().map(|x| match x {
+            None => "x".to_string(),
+            Some((r, c, o, v)) => format!("{r}.{c}:{o}:{v}"),
+        }).collect::<Vec<_>>()),
+        "posnthmut" | "posadaptmut" => join(&obs.pitems.iter().map(|x| match x {
+            None => "x".to_string(),
+            Some((r, c, o, _)) => format!("{r}.{c}:{o}"),
+        }).collect::<Vec<_>>()),
         "itermut" | "nthmut" => join(&obs.items.iter().map(show_off).collect::<Vec<_>>()),
         "fill" | "clear" | "insert" | "insertwrap" | "inserthuge" => join(&obs.canvas),
         // the order of the closure calls is not compared: offsets sorted
@@ -871,6 +1217,43 @@ fn judge(case: &Case, win: &Mat, obs: &Result<Obs, ()>) -> Option<(String, Value
                 }
             }
         }
+        "posnth" | "posnthmut" | "posadapt" | "posadaptmut" => {
+            // which cells of the row-major enumeration the calls / the adaptor select
+            let mut idx: Vec<Option<usize>> = Vec::new();
+            if case.acc.starts_with("posnth") {
+                let mut p = 0usize;
+                for &k in &case.args {
+                    p = p.saturating_add(k);
+                    idx.push(if p < flat.len() { Some(p) } else { None });
+                    p = p.saturating_add(1);
+                }
+            } else {
+                let (mode, a, b) = (case.args[0], case.args[1], case.args[2]);
+                let (start, step) = match mode {
+                    1 => (a, 1),
+                    2 => (0, b),
+                    _ => (a, b),
+                };
+                let mut p = start;
+                while p < flat.len() {
+                    idx.push(Some(p));
+                    p += step;
+                }
+                idx.push(None);
+            }
+            // every item comes with the position of that very cell
+            let exp: Vec<Option<(usize, usize, usize, T)>> =
+                idx.iter().map(|i| i.map(|i| (i / ws, i % ws, flat[i], init[flat[i]]))).collect();
+            if obs.pitems != exp {
+                return bad("with_position under nth/skip/step_by: (position, item) pairs are not the window's row-major enumeration",
+                    json!(exp), json!(obs.pitems));
+            }
+            if case.acc.ends_with("mut") {
+                for e in exp.iter().flatten() {
+                    canvas[e.2] = pv(e.0, e.1);
+                }
+            }
+        }
         "fill" => flat.iter().for_each(|&id| canvas[id] = case.args[0] as T),
         "clear" => flat.iter().for_each(|&id| canvas[id] = 0),
         "fillwith" => {
@@ -937,7 +1320,7 @@ fn judge(case: &Case, win: &Mat, obs: &Result<Obs, ()>) -> Option<(String, Value
         }
         _ => {}
     }
-    if obs.canvas != canvas {
+    if !obs.canvas_skip && obs.canvas != canvas {
         let outside = obs.canvas.iter().enumerate().any(|(i, v)| !flat.contains(&i) && *v != init[i]);
         let what = if outside { "a cell outside of the window was changed" } else { "cells of the window do not hold what was written through the view" };
         return bad(what, json!(canvas), json!(obs.canvas));
@@ -1078,6 +1461,7 @@ fn corner_chains() -> Vec<(usize, usize, Vec<Op>)> {
 }
 
 const ZST: u8 = 3;
+const RGBA_ELEM: u8 = 4;
 impl Elem for () {
     fn mk(_: T) -> Self {}
     fn id(&self) -> T {
@@ -1220,7 +1604,7 @@ impl Ctx {
         self.out.case(&format!("{req} {ans}"), nontrivial);
         self.out.hist(&format!("acc:{}", case.acc));
         self.out.hist(&format!("elem:{}", ELEMS[case.elem as usize]));
-        if !matches!(case.acc.as_str(), "insertwrap" | "inserthuge" | "toowned") {
+        if !matches!(case.acc.as_str(), "insertwrap" | "inserthuge" | "toowned") && case.elem != RGBA_ELEM {
             self.out.corr(&req, &ans);
         }
         if let Some((what, exp, got)) = judge(&case, &win, &obs) {
@@ -1261,7 +1645,7 @@ impl Ctx {
         self.out.hist(if extra > 0 { "root:from_vec" } else { "root:new_with" });
         const MAX: usize = usize::MAX;
         let accs = [
-            "grid", "grid+", "gridmut", "probe", "probe+", "probemut", "iter", "iter+", "itermut", "nth", "nth+", "nthmut", "nthmut!", "nth!", "fill", "clear", "fillwith",
+            "grid", "grid+", "gridmut", "probe", "probe+", "probemut", "posnth", "posnth+", "posnthmut", "posadapt", "posadaptmut", "iter", "iter+", "itermut", "nth", "nth+", "nthmut", "nthmut!", "nth!", "fill", "clear", "fillwith",
             "insert", "insert!", "inserthuge", "insertwrap", "map", "map+", "toowned", "set", "set!",
         ];
         for acc in accs.iter() {
@@ -1349,6 +1733,30 @@ impl Ctx {
                     case.args = vec![r, c];
                     let n = rng.below(cells as u64 + 4) as usize;
                     case.items = (0..n).map(|j| 9000 + j as T).collect();
+                }
+                "posnth" | "posnthmut" => {
+                    // next / nth mixes on the position iterator (nth is executed as that many `next`)
+                    let calls = 2 + rng.below(5) as usize;
+                    for _ in 0..calls {
+                        let k = if rng.chance(1, 2) { 0 } else { 1 + rng.below(ws.max(2) as u64 + 1) as usize };
+                        case.args.push(k);
+                    }
+                    if rng.chance(1, 5) {
+                        case.args.push(cells + rng.below(3) as usize);
+                        case.args.push(0);
+                    }
+                }
+                "posadapt" | "posadaptmut" => {
+                    let mode = 1 + rng.below(3) as usize;
+                    let a = rng.below(cells as u64 + 2) as usize;
+                    let b = 1 + rng.below(ws.max(2) as u64 + 1) as usize;
+                    case.args = vec![mode, a, b];
+                    let (first, step, count) = match mode {
+                        1 => (a, 0, cells.saturating_sub(a)),
+                        2 => (0, b - 1, cells.div_ceil(b)),
+                        _ => (a, b - 1, cells.saturating_sub(a).div_ceil(b)),
+                    };
+                    case.items = std::iter::once(first as T).chain(std::iter::repeat_n(step as T, count)).collect();
                 }
                 "probe" | "probemut" => {
                     // far positions: (far, in-range), (in-range, far), (far, far), plus one ordinary neighbour
@@ -1512,7 +1920,7 @@ fn main() {
     }
     let mut rng = Rng::new(cfg.seed);
     for (i, (h, w, ops)) in corner_chains().into_iter().enumerate() {
-        ctx.chain(&mut rng, h, w, if i % 4 == 3 { 1 + i % 3 } else { 0 }, (i % 3) as u8, &ops);
+        ctx.chain(&mut rng, h, w, if i % 4 == 3 { 1 + i % 3 } else { 0 }, [0u8, 1, 2, RGBA_ELEM][i % 4], &ops);
     }
     // VERIF_MIRI: the same case list, cut down, for a run under the Miri interpreter (see `miri_support`)
     let under_miri = std::env::var("VERIF_MIRI").is_ok();
@@ -1531,7 +1939,8 @@ fn main() {
             )
         };
         let extra = if rng.chance(1, 5) { 1 + rng.below(3) as usize } else { 0 };
-        let elem = if rng.chance(1, if cfg.thorough { 3 } else { 6 }) { 1 + rng.below(2) as u8 } else { 0 };
+        // RGBA cells bring `Image` in as a carrier of the read-side accessors
+        let elem = if rng.chance(1, if cfg.thorough { 3 } else { 4 }) { *rng.pick(&[1u8, 2, RGBA_ELEM, RGBA_ELEM]) } else { 0 };
         let steps = gen_chain(&mut rng, h, w, 5);
         let ops: Vec<Op> = steps.iter().map(|s| s.op).collect();
         if i % 997 == 0 {
